@@ -156,3 +156,306 @@ for n in (1, 2):
                                   'const.wavenumber_to_inertia(vib_wavenumbers[k]) * Bav / '
                                   '(const.wavenumber_to_inertia(vib_wavenumbers[k]) + Bav) for k in range(len(vib_wavenumbers)))')],
              cross_check=False)
+
+# =============================================================================
+# rigid rotor
+# =============================================================================
+def rotor(geometry, n_rot):
+    return New(RO + 'RigidRotor', symmetrynumber=Real(1., 24.),
+               rot_temperatures=RealList(n_rot, 0.01, 100.), geometry=Const(geometry))
+
+
+RREQ = ['T > 0', 'self.symmetrynumber > 0', 'all(t > 0 for t in self.rot_temperatures)']
+contract(RO + 'RigidRotor.get_q', P, label='linear', args=dict(self=rotor('linear', 1), T=T), requires=RREQ,
+         ensures=[('textbook', 'result == %srotor_q_linear(T, self.symmetrynumber, self.rot_temperatures[0])' % S)])
+contract(RO + 'RigidRotor.get_q', P, label='nonlinear', args=dict(self=rotor('nonlinear', 3), T=T), requires=RREQ,
+         ensures=[('textbook', 'result == %srotor_q_nonlinear(T, self.symmetrynumber, self.rot_temperatures[0], '
+                               'self.rot_temperatures[1], self.rot_temperatures[2])' % S)])
+contract(RO + 'RigidRotor.get_SoR', P, label='linear', args=dict(self=rotor('linear', 1), T=T), requires=RREQ,
+         ensures=[('S=ln(q)+U', 'result == log(%srotor_q_linear(T, self.symmetrynumber, self.rot_temperatures[0])) + 1' % S)])
+contract(RO + 'RigidRotor.get_SoR', P, label='nonlinear', args=dict(self=rotor('nonlinear', 3), T=T), requires=RREQ,
+         ensures=[('S=ln(q)+U', 'result == log(%srotor_q_nonlinear(T, self.symmetrynumber, self.rot_temperatures[0], '
+                                'self.rot_temperatures[1], self.rot_temperatures[2])) + 3 / 2' % S)])
+for geom, nrot, val in (('monatomic', 1, '0'), ('linear', 1, '1'), ('nonlinear', 3, '3 / 2')):
+    for q in ('CvoR', 'CpoR', 'UoRT', 'HoRT'):
+        contract(RO + 'RigidRotor.get_' + q, P, label=geom, args=dict(self=rotor(geom, nrot)),
+                 ensures=[('equipartition', 'result == %s' % val)])
+    contract(RO + 'RigidRotor.get_FoRT', P, label=geom, args=dict(self=rotor(geom, nrot), T=T), requires=RREQ,
+             ensures=[('F=U-TS', 'result == self.get_UoRT() - self.get_SoR(T=T)')])
+    contract(RO + 'RigidRotor.get_GoRT', P, label=geom, args=dict(self=rotor(geom, nrot), T=T), requires=RREQ,
+             ensures=[('G=H-TS', 'result == self.get_HoRT() - self.get_SoR(T=T)')])
+    lemma('RigidRotor[%s]:TdS/dT=Cp' % geom, P, forall=dict(self=rotor(geom, nrot), T=T), given=RREQ,
+          prove=['T * D(self.get_SoR(T=T), T) == self.get_CpoR()',
+                 'D(T * self.get_UoRT(), T) == self.get_CvoR()'])
+for q in ('q', 'SoR'):
+    contract(RO + 'RigidRotor.get_' + q, P, label='unsupported-geometry',
+             args=dict(self=rotor('planar', 3), T=T), raises={'ValueError': 'True'}, cross_check=False)
+contract(RO + 'RigidRotor.get_SoR', P, label='monatomic', args=dict(self=rotor('monatomic', 1), T=T),
+         requires=RREQ, ensures=['result == 0'])
+# documented point-group labels (docstring table of RigidRotor)
+POINT_GROUPS = {'C1': 1, 'Cs': 1, 'C2': 2, 'C2v': 2, 'C3v': 3, 'Cinfv': 1, 'D2h': 4, 'D3h': 6,
+                'D5h': 10, 'Dinfh': 2, 'D3d': 6, 'Td': 12, 'Oh': 24}
+for lab, sig in POINT_GROUPS.items():
+    contract(RO + 'RigidRotor.__init__', P, label='pointgroup[%s]' % lab,
+             args=dict(self=Fields(RO + 'RigidRotor'), symmetrynumber=Const(lab),
+                       rot_temperatures=RealList(1, 0.01, 100.), geometry=Const('linear')),
+             ensures=['self.symmetrynumber == %d' % sig], cross_check=False)
+
+# =============================================================================
+# ideal-gas translation (Sackur-Tetrode)
+# =============================================================================
+def ft(n):
+    return New(TR + 'FreeTrans', n_degrees=Const(n), molecular_weight=Real(1., 500.))
+
+
+FREQ = ['T > 0', 'P > 0', 'self.molecular_weight > 0']
+MASS = '(self.molecular_weight / 1000 / const.Na)'
+VMOL = "(const.R('J/mol/K') * T / (P * 100000) / const.Na)"
+for n in (1, 2, 3):
+    contract(TR + 'FreeTrans.get_V', P, label='n=%d' % n, args=dict(self=ft(n), T=T, P=PRES), requires=FREQ,
+             ensures=[('ideal-gas', "result * P * 100000 == const.R('J/mol/K') * T")])
+    contract(TR + 'FreeTrans.get_q', P, label='n=%d' % n, args=dict(self=ft(n), T=T, P=PRES), requires=FREQ,
+             ensures=[('textbook', "result == %strans_q(%d, %s, const.kb('J/K'), const.h('J s'), T, %s)" % (S, n, MASS, VMOL))])
+    contract(TR + 'FreeTrans.get_SoR', P, label='n=%d' % n, args=dict(self=ft(n), T=T, P=PRES), requires=FREQ,
+             ensures=[('sackur-tetrode', "result == %ssackur_tetrode_S(%d, %s, const.kb('J/K'), const.h('J s'), T, %s)" % (S, n, MASS, VMOL)),
+                      ('S(P2)-S(P1)=-ln(P2/P1)', 'self.get_SoR(T=T, P=2 * P) - result == -log(2)')])
+    for q, val in (('CvoR', '%d / 2' % n), ('UoRT', '%d / 2' % n), ('CpoR', '%d / 2 + 1' % n), ('HoRT', '%d / 2 + 1' % n)):
+        contract(TR + 'FreeTrans.get_' + q, P, label='n=%d' % n, args=dict(self=ft(n)),
+                 ensures=[('equipartition', 'result == %s' % val)])
+    contract(TR + 'FreeTrans.get_FoRT', P, label='n=%d' % n, args=dict(self=ft(n), T=T, P=PRES), requires=FREQ,
+             ensures=[('F=U-TS', 'result == self.get_UoRT() - self.get_SoR(T=T, P=P)')])
+    contract(TR + 'FreeTrans.get_GoRT', P, label='n=%d' % n, args=dict(self=ft(n), T=T, P=PRES), requires=FREQ,
+             ensures=[('G=H-TS', 'result == self.get_HoRT() - self.get_SoR(T=T, P=P)')])
+    lemma('FreeTrans[n=%d]:relations' % n, P, forall=dict(self=ft(n), T=T, P=PRES), given=FREQ,
+          prove=[('TdS/dT=Cp', 'T * D(self.get_SoR(T=T, P=P), T) == self.get_CpoR()'),
+                 ('dH/dT=Cp', 'D(T * self.get_HoRT(), T) == self.get_CpoR()'),
+                 ('dU/dT=Cv', 'D(T * self.get_UoRT(), T) == self.get_CvoR()'),
+                 ('H-U=RT', 'self.get_HoRT() - self.get_UoRT() == 1')])
+lemma('FreeTrans:S(P2)-S(P1)', P, forall=dict(self=ft(3), T=T, P=PRES, P2=PRES), given=FREQ + ['P2 > 0'],
+      prove=[('entropy-falls-by-ln(P2/P1)', 'self.get_SoR(T=T, P=P2) - self.get_SoR(T=T, P=P) == -(log(P2) - log(P))')])
+
+# =============================================================================
+# electronic ground state, empty / constant modes
+# =============================================================================
+def gse(D0=None):
+    return New(EL + 'GroundStateElec', potentialenergy=Real(-30., 5.), spin=Real(0., 3.),
+               D0=Const(None) if D0 is None else Real(0.1, 5.))
+
+
+contract(EL + 'GroundStateElec.__init__', P, label='degeneracy',
+         args=dict(self=Fields(EL + 'GroundStateElec'), potentialenergy=Real(-30., 5.), spin=Real(0., 3.)),
+         ensures=[('inv', 'self._degeneracy == 2 * self.spin + 1 and self.spin == spin')], cross_check=False)
+contract(EL + 'GroundStateElec.get_UoRT', P, args=dict(self=gse(), T=T), requires=['T > 0'],
+         ensures=["result == self.potentialenergy / (const.kb('eV/K') * T)"])
+contract(EL + 'GroundStateElec.get_HoRT', P, args=dict(self=gse(), T=T), requires=['T > 0'],
+         ensures=['result == self.get_UoRT(T=T)'])
+contract(EL + 'GroundStateElec.get_SoR', P, args=dict(self=gse()), requires=['self.spin >= 0'],
+         ensures=[('ln(2S+1)', 'result == log(2 * self.spin + 1)')])
+for q in ('CvoR', 'CpoR'):
+    contract(EL + 'GroundStateElec.get_' + q, P, args=dict(self=gse()), ensures=['result == 0'])
+contract(EL + 'GroundStateElec.get_q', P, label='ignored', args=dict(self=gse(), T=T), requires=['T > 0'],
+         ensures=['result == 1'])
+contract(EL + 'GroundStateElec.get_q', P, label='D0', args=dict(self=gse(1), T=T, ignore_q_elec=Const(False)),
+         requires=['T > 0', 'self.spin >= 0'],
+         ensures=["result == (2 * self.spin + 1) * (1 + exp(-self.D0 / (const.kb('eV/K') * T)))"])
+contract(EL + 'GroundStateElec.get_FoRT', P, args=dict(self=gse(), T=T), requires=['T > 0', 'self.spin >= 0'],
+         ensures=[('F=U-TS', 'result == self.get_UoRT(T=T) - self.get_SoR()')])
+contract(EL + 'GroundStateElec.get_GoRT', P, args=dict(self=gse(), T=T), requires=['T > 0', 'self.spin >= 0'],
+         ensures=[('G=H-TS', 'result == self.get_HoRT(T=T) - self.get_SoR()')])
+lemma('GroundStateElec:relations', P, forall=dict(self=gse(), T=T), given=['T > 0', 'self.spin >= 0'],
+      prove=[('dU/dT=Cv', 'D(T * self.get_UoRT(T=T), T) == self.get_CvoR()'),
+             ('TdS/dT=Cp', 'T * D(self.get_SoR(), T) == self.get_CpoR()')])
+for cls_ in ('pmutt.statmech.nucl:EmptyNucl', 'pmutt.statmech:EmptyMode'):
+    for q, v in (('q', 1), ('CvoR', 0), ('CpoR', 0), ('UoRT', 0), ('HoRT', 0), ('SoR', 0), ('FoRT', 0), ('GoRT', 0)):
+        contract(cls_ + '.get_' + q, P, args=dict(self=New(cls_)), ensures=['result == %d' % v])
+
+
+def cm():
+    return New('pmutt.statmech:ConstantMode', q=Real(0.5, 2.), Cv=Real(-1., 1.), Cp=Real(-1., 1.), U=Real(-1., 1.),
+               H=Real(-1., 1.), S=Real(-1., 1.), F=Real(-1., 1.), G=Real(-1., 1.))
+
+
+RE = "const.R('eV/K')"
+for q, e in (('q', 'self.q'), ('CvoR', 'self.Cv / %s' % RE), ('CpoR', 'self.Cp / %s' % RE), ('SoR', 'self.S / %s' % RE)):
+    contract('pmutt.statmech:ConstantMode.get_' + q, P, args=dict(self=cm()), ensures=['result == ' + e])
+for q, e in (('UoRT', 'self.U'), ('HoRT', 'self.H'), ('FoRT', 'self.F'), ('GoRT', 'self.G')):
+    contract('pmutt.statmech:ConstantMode.get_' + q, P, args=dict(self=cm(), T=T), requires=['T > 0'],
+             ensures=['result == %s / (%s * T)' % (e, RE)])
+
+# =============================================================================
+# Debye crystal.  quad(f, a, b)[0] is the integral (assumed contract); the three
+# integrands are checked against the textbook ones; the thermodynamic
+# relations are lemmas over the textbook integrands (FTC / Leibniz rule).
+# =============================================================================
+def deb():
+    return New(V + 'DebyeVib', debye_temperature=Real(50., 2000.), interaction_energy=Real(-2., 2.))
+
+
+X = Real(0.01, 40.)
+DREQ = ['T > 0', 'self.debye_temperature > 0']
+U_ = '(self.debye_temperature / T)'
+contract(V + 'DebyeVib._F_integrand', P, args=dict(self=deb(), x=X), requires=['x > 0'],
+         ensures=[('textbook', 'result == %sdebye_f(x)' % S)])
+contract(V + 'DebyeVib._G_integrand', P, args=dict(self=deb(), x=X), requires=['x > 0'],
+         ensures=[('textbook', 'result == %sdebye_g(x)' % S)])
+contract(V + 'DebyeVib._K_integrand', P, args=dict(self=deb(), x=X), requires=['x > 0'],
+         ensures=[('textbook', 'result == %sdebye_k(x)' % S)])
+for nm in ('F', 'G', 'K'):
+    contract(V + 'DebyeVib._get_intermediate_fn', P, label=nm,
+             args=dict(self=deb(), T=T), ghost=None, requires=DREQ,
+             ensures=['True'], cross_check=False) if False else None
+contract(V + 'DebyeVib.get_CvoR', P, args=dict(self=deb(), T=T), requires=DREQ,
+         ensures=[('3K(u)', 'result == 3 * (3 * integral(self._K_integrand, 0, %s) / %s**3)' % (U_, U_))])
+contract(V + 'DebyeVib.get_UoRT', P, args=dict(self=deb(), T=T), requires=DREQ,
+         ensures=[('ZPE/kT+3F(u)', "result == self.get_ZPE() / (const.kb('eV/K') * T) + "
+                                   "3 * (3 * integral(self._F_integrand, 0, %s) / %s**3)" % (U_, U_))])
+contract(V + 'DebyeVib.get_SoR', P, args=dict(self=deb(), T=T), requires=DREQ,
+         ensures=[('3(F-G)', 'result == 3 * (3 * integral(self._F_integrand, 0, %s) / %s**3'
+                             ' - 3 * integral(self._G_integrand, 0, %s) / %s**3)' % (U_, U_, U_, U_))])
+contract(V + 'DebyeVib.get_ZPE', P, args=dict(self=deb()),
+         ensures=["result == self.interaction_energy + 9 * const.R('eV/K') * self.debye_temperature / 8"])
+for a, b in (('HoRT', 'UoRT'), ('CpoR', 'CvoR')):
+    contract(V + 'DebyeVib.get_' + a, P, args=dict(self=deb(), T=T), requires=DREQ,
+             ensures=['result == self.get_%s(T=T)' % b])
+contract(V + 'DebyeVib.get_FoRT', P, args=dict(self=deb(), T=T), requires=DREQ,
+         ensures=[('F=U-TS', 'result == self.get_UoRT(T=T) - self.get_SoR(T=T)')])
+contract(V + 'DebyeVib.get_GoRT', P, args=dict(self=deb(), T=T), requires=DREQ,
+         ensures=[('G=H-TS', 'result == self.get_HoRT(T=T) - self.get_SoR(T=T)')])
+IF = 'integral(%sdebye_f, 0, u)' % S
+IG = 'integral(%sdebye_g, 0, u)' % S
+IK = 'integral(%sdebye_k, 0, u)' % S
+UU = Real(0.01, 40.)
+# integration by parts, via FTC-uniqueness: both sides have the same derivative
+# (proved) and the same limit 0 at u -> 0+ (trusted: x^4/(e^x-1) -> 0, x^3 ln(1-e^-x) -> 0)
+lemma('Debye:by-parts:K', P, forall=dict(u=UU), given=['u > 0'],
+      prove=[('same-derivative', 'D(%s, u) == D(4 * %s - u**4 / (exp(u) - 1), u)' % (IK, IF))],
+      note='FTC-uniqueness: equal derivative on (0,inf) and equal limit at 0+ imply equality; '
+           'limits x^4/(e^x-1) -> 0 and x^3 ln(1-e^-x) -> 0 at 0+ are trusted')
+lemma('Debye:by-parts:G', P, forall=dict(u=UU), given=['u > 0'],
+      prove=[('same-derivative', 'D(%s, u) == D(u**3 * log(1 - exp(-u)) / 3 - %s / 3, u)' % (IG, IF))])
+UT = '(theta / T)'
+IFt = 'integral(%sdebye_f, 0, theta / T)' % S
+IGt = 'integral(%sdebye_g, 0, theta / T)' % S
+IKt = 'integral(%sdebye_k, 0, theta / T)' % S
+BYPARTS = ['%s == 4 * %s - %s**4 / (exp(%s) - 1)' % (IKt, IFt, UT, UT),
+           '%s == %s**3 * log(1 - exp(-%s)) / 3 - %s / 3' % (IGt, UT, UT, IFt)]
+TH = Real(50., 2000.)
+lemma('Debye:dU/dT=Cv', P, forall=dict(theta=TH, T=T), given=['theta > 0', 'T > 0'] + BYPARTS,
+      prove=['D(T * 3 * (3 * %s / %s**3), T) == 3 * (3 * %s / %s**3)' % (IFt, UT, IKt, UT)])
+lemma('Debye:TdS/dT=Cv', P, forall=dict(theta=TH, T=T), given=['theta > 0', 'T > 0'] + BYPARTS,
+      prove=['T * D(3 * (3 * %s / %s**3 - 3 * %s / %s**3), T) == 3 * (3 * %s / %s**3)'
+             % (IFt, UT, IGt, UT, IKt, UT)])
+
+# =============================================================================
+# keyword routing (pmutt/__init__.py)
+# =============================================================================
+PM = 'pmutt:'
+contract(PM + '_pass_expected_arguments', P, label='method-with-subset-of-kwargs',
+         args=dict(fn=New(TR + 'FreeTrans', _via=None, n_degrees=Const(3), molecular_weight=Real(1., 500.)),
+                   __kwargs__=DictOf({'T': T, 'P': PRES, 'x': Real(0., 1.), 'verbose': Const(False)})),
+         requires=['T > 0', 'P > 0'], ensures=['True'], cross_check=False) if False else None
+
+
+def ft3():
+    return New(TR + 'FreeTrans', n_degrees=Const(3), molecular_weight=Real(1., 500.))
+
+
+contract(PM + '_get_mode_quantity', P, label='routes-only-expected-keywords',
+         args=dict(mode=ft3(), method_name=Const('get_SoR'), T=T, P=PRES, x=Real(0., 1.), junk=Const('ignored')),
+         requires=['T > 0', 'P > 0', 'mode.molecular_weight > 0'],
+         ensures=['result == mode.get_SoR(T=T, P=P)'])
+contract(PM + '_get_mode_quantity', P, label='defaults-when-keyword-absent',
+         args=dict(mode=ft3(), method_name=Const('get_SoR'), T=T),
+         requires=['T > 0', 'mode.molecular_weight > 0'],
+         ensures=['result == mode.get_SoR(T=T, P=1.)'])
+for re_, rw in ((True, True), (False, True), (False, False)):
+    contract(PM + '_get_mode_quantity', P, label='missing-method[raise_error=%s,raise_warning=%s]' % (re_, rw),
+             args=dict(mode=ft3(), method_name=Const('get_ZPE'), raise_error=Const(re_), raise_warning=Const(rw),
+                       default_value=Real(-1., 1.), T=T),
+             ensures=['result == default_value'],
+             raises={'AttributeError': 'raise_error'}, warns='(not raise_error) and raise_warning',
+             cross_check=False)
+contract(PM + '_get_specie_kwargs', P, label='own-block-applied-others-removed',
+         args=dict(specie_name=Const('A'), T=T, P=PRES,
+                   A_kwargs=DictOf({'P': Real(1., 2.), 'x': Real(0., 1.)}),
+                   B_kwargs=DictOf({'P': Real(3., 4.)})),
+         ensures=[('result', "result == {'T': T, 'P': A_kwargs['P'], 'x': A_kwargs['x']}"),
+                  ('frame:blocks-unmodified', "A_kwargs == old(A_kwargs) and B_kwargs == old(B_kwargs)")],
+         cross_check=False)
+contract(PM + '_get_specie_kwargs', P, label='no-own-block',
+         args=dict(specie_name=Const('C'), T=T, P=PRES, B_kwargs=DictOf({'P': Real(3., 4.)})),
+         ensures=["result == {'T': T, 'P': P}"], cross_check=False)
+for op, verbose in (('sum', False), ('prod', False), ('sum', True)):
+    contract(PM + '_apply_numpy_operation', P, label='%s,verbose=%s' % (op, verbose),
+             args=dict(quantity=RealVec(4, 0.5, 2.), operation=Const(op), verbose=Const(verbose)),
+             ensures=['result == quantity' if verbose else
+                      ('result == quantity[0] %s quantity[1] %s quantity[2] %s quantity[3]'
+                       % (('+',) * 3 if op == 'sum' else ('*',) * 3))])
+
+
+# =============================================================================
+# species: total = sum / product of the per-mode contributions it reports
+# =============================================================================
+SM = 'pmutt.statmech:StatMech'
+
+
+def species(trans=True, vib='harmonic', rot='nonlinear'):
+    kw = dict(name=Const('A'))
+    if trans:
+        kw['trans_model'] = ft3()
+    if vib == 'harmonic':
+        kw['vib_model'] = hv()
+    elif vib == 'einstein':
+        kw['vib_model'] = ein()
+    if rot:
+        kw['rot_model'] = rotor(rot, 3 if rot == 'nonlinear' else 1)
+    kw['elec_model'] = gse()
+    kw['nucl_model'] = New(NU + 'EmptyNucl')
+    return New(SM, **kw)
+
+
+SREQ = ['T > 0', 'P > 0', 'self.trans_model.molecular_weight > 0', 'self.rot_model.symmetrynumber > 0',
+        'all(t > 0 for t in self.rot_model.rot_temperatures)', 'self.elec_model.spin >= 0']
+MODE_ARGS = {  # which conditions each mode getter takes
+    'q': ('T=T, P=P', 'T=T', 'T=T', 'T=T', ''),
+    'CvoR': ('', 'T=T', '', '', ''), 'CpoR': ('', 'T=T', '', '', ''),
+    'UoRT': ('', 'T=T', '', 'T=T', ''), 'HoRT': ('', 'T=T', '', 'T=T', ''),
+    'SoR': ('T=T, P=P', 'T=T', 'T=T', '', ''),
+    'FoRT': ('T=T, P=P', 'T=T', 'T=T', 'T=T', ''), 'GoRT': ('T=T, P=P', 'T=T', 'T=T', 'T=T', ''),
+}
+MODES = ('trans_model', 'vib_model', 'rot_model', 'elec_model', 'nucl_model')
+for q, margs in MODE_ARGS.items():
+    op = '*' if q == 'q' else '+'
+    neutral = '1' if q == 'q' else '0'
+    parts = ['self.%s.get_%s(%s)' % (m, q, a) for m, a in zip(MODES, margs)]
+    contract(SM + '.get_' + q, P, label='total',
+             args=dict(self=species(), T=T, P=PRES), requires=SREQ,
+             ensures=[('total-is-%s-of-modes' % ('product' if q == 'q' else 'sum'),
+                       'result == ' + (' %s ' % op).join(parts))])
+    contract(SM + '.get_' + q, P, label='verbose',
+             args=dict(self=species(), T=T, P=PRES, verbose=Const(True)), requires=SREQ,
+             ensures=[('per-mode-entries', 'len(result) == 7 and ' +
+                       ' and '.join('result[%d] == %s' % (k, p_) for k, p_ in enumerate(parts)) +
+                       ' and result[5] == %s and result[6] == %s' % (neutral, neutral))],
+             cross_check=False)
+# the defining relations at species level (every mode sum at once)
+lemma('species:relations', P, forall=dict(self=species(), T=T, P=PRES), given=SREQ,
+      prove=[('G=H-TS', 'self.get_GoRT(T=T, P=P) == self.get_HoRT(T=T, P=P) - self.get_SoR(T=T, P=P)'),
+             ('F=U-TS', 'self.get_FoRT(T=T, P=P) == self.get_UoRT(T=T, P=P) - self.get_SoR(T=T, P=P)'),
+             ('dU/dT=Cv', 'D(T * self.get_UoRT(T=T, P=P), T) == self.get_CvoR(T=T, P=P)'),
+             ('dH/dT=Cp', 'D(T * self.get_HoRT(T=T, P=P), T) == self.get_CpoR(T=T, P=P)'),
+             ('TdS/dT=Cp', 'T * D(self.get_SoR(T=T, P=P), T) == self.get_CpoR(T=T, P=P)'),
+             ('H-U=RT-with-ideal-gas-translation', 'self.get_HoRT(T=T, P=P) - self.get_UoRT(T=T, P=P) == 1'),
+             ('S(P2)-S(P1)', 'self.get_SoR(T=T, P=2 * P) - self.get_SoR(T=T, P=P) == -log(2)')])
+lemma('species-without-translation:H-U=0', P,
+      forall=dict(self=species(trans=False, vib='einstein', rot=None), T=T),
+      given=['T > 0', 'self.vib_model.einstein_temperature > 0', 'self.elec_model.spin >= 0'],
+      prove=[('H-U=0', 'self.get_HoRT(T=T) == self.get_UoRT(T=T)'),
+             ('G=H-TS', 'self.get_GoRT(T=T) == self.get_HoRT(T=T) - self.get_SoR(T=T)'),
+             ('dH/dT=Cp', 'D(T * self.get_HoRT(T=T), T) == self.get_CpoR(T=T)'),
+             ('TdS/dT=Cp', 'T * D(self.get_SoR(T=T), T) == self.get_CpoR(T=T)')])
+for zpe in (False, True):
+    contract(SM + '.get_EoRT', P, label='include_ZPE=%s' % zpe,
+             args=dict(self=species(), T=T, include_ZPE=Const(zpe)), requires=SREQ[:1] + SREQ[2:],
+             ensures=["result == self.elec_model.get_UoRT(T=T)" +
+                      (" + self.vib_model.get_ZPE() / (const.R('eV/K') * T)" if zpe else '')])
